@@ -226,6 +226,9 @@ def run(rep: Report, tier: str, seed: int) -> None:
     units.append(("struct:reexport", "struct:reexport", {f"r{u}/__init__.py": f"from ._impl{u} import Pub{u}, fun{u}\nfrom ._impl{u} import Other{u} as Alias{u}\n", f"r{u}/_impl{u}.py": f"class Pub{u}:\n    def f(self) -> 'Other{u}':\n        ...\n\n\nclass Other{u}:\n    ...\n\n\ndef fun{u}(a: Pub{u}) -> int:\n    ...\n"}))
     u = f"{next(uid):05d}"
     units.append(("struct:generic-bound", "struct:generic-bound", {f"m{u}.py": f'from typing import Generic, TypeVar\n\nT{u} = TypeVar("T{u}", bound=int)\nU{u} = TypeVar("U{u}", covariant=True)\n\n\nclass G{u}(Generic[T{u}, U{u}]):\n    def f(self, a: T{u}) -> U{u}:\n        ...\n'}))
+    # type variables of another module that are referenced THROUGH the module (typing.AnyStr, tv.T): no dotted identifiers
+    u = f"{next(uid):05d}"
+    units.append(("struct:typevar-via-module", "struct:typevar-via-module", {f"tv{u}.py": f"from typing import TypeVar\n\nT{u} = TypeVar('T{u}')\n", f"m{u}.py": f"import typing\n\nfrom . import tv{u}\n\n\ndef f{u}(a: typing.IO[typing.AnyStr]) -> typing.AnyStr:\n    ...\n\n\ndef g{u}(a: tv{u}.T{u}) -> tv{u}.T{u}:\n    return a\n\n\nclass K{u}(typing.Generic[tv{u}.T{u}]):\n    def m(self, a: tv{u}.T{u}) -> tv{u}.T{u}:\n        return a\n"}))
     groups.append((units, Opts()))
     groups.append((units, Opts(convert=True)))
 
